@@ -286,6 +286,42 @@ def run_session_paths(ctx, model):
                     ctx.violation("symbol-list-path-wrong", case, "parses to %r, wanted [program] + class 0x6B + instance" % (segs,))
                     break
         ctx.count("session-paths/symbol-list-requests", n_list)
+        # bit reads of integer tags, one per call: the request path must name the WORD that was asked for — by its symbol
+        # instance or by exactly its name (program scope first) — whatever digits the name ends in and whatever the bit
+        # number is (`Flags10.0`, `Word3.3`, `Word3.13`: the bit suffix is taken off the request, nothing else is)
+        if sess.open_error is None:
+            ints = [(sym, pre) for (sym, pre) in lx.user_symbols(p, with_programs=sess.d._cfg.get("init_program_tags", True))
+                    if sym.kind == "atomic" and sym.typ in ("SINT", "INT", "DINT", "USINT", "UINT", "UDINT") and not any(sym.dims)]
+            for sym, pre in ints[:6]:
+                width = 8 * lg.elem_size("atomic", sym.typ)
+                digits = [int(ch) for ch in sym.name if ch.isdigit()]
+                bits = sorted({b for b in digits + [10 + d for d in digits] + [0, 1] if b < width})[:5]
+                for b in bits:
+                    n0 = len(sess.sock.frames)
+                    tag = "%s%s.%d" % (pre, sym.name, b)
+                    try:
+                        core.with_budget(60, sess.d.read, tag)
+                    except BaseException as e:  # noqa
+                        if isinstance(e, (KeyboardInterrupt, SystemExit)):
+                            raise
+                        continue
+                    ctx.case("session-bit-paths", ("sbp", i, tag))
+                    for f in sess.sock.frames[n0:]:
+                        if f[:2] != b"\x70\x00" or len(f) < 48 or f[46] not in (0x4C, 0x52):
+                            continue
+                        case = {"index": i, "read": tag, "request": f[46:110].hex()}
+                        try:
+                            segs, _rest = refpath.parse_request_path(f[47:])
+                        except refpath.BadPath as e:
+                            ctx.violation("emitted-path-malformed", case, str(e))
+                            break
+                        parts = [x.encode() for x in ([pre[:-1]] if pre else []) + [sym.name]]
+                        by_name = [("symbol", x) for x in parts]
+                        by_inst = ([("symbol", parts[0])] if pre else []) + [("logical", "class_id", 0x6B), ("logical", "instance_id", sym.inst)]
+                        if segs != by_name and segs != by_inst:
+                            ctx.violation("bit-read-path-names-another-tag", case,
+                                          "read(%r) sent the path %r; wanted %r or %r" % (tag, segs, by_name, by_inst))
+                            break
         sess.close()
 
 
